@@ -213,6 +213,10 @@ def check(ctx):
             ctx.ok("C12.c", "replay:%s" % lib.tail(n, 2), R.loc(b), "%s visits front to back" % sn)
         elif cl == "order-destroying":
             ctx.fail("C12.c", "replay:%s" % lib.tail(n, 2), R.loc(b), "%s does not visit the postponed commands in arrival order" % sn)
+        elif cl == "append-ordered" and _rotation_replay(ctx):
+            # one full turn of the queue (pop_front, then push_back of the popped element or run): the order argument is the
+            # rotation rule of C02.c, whose obligations this property adopts
+            ctx.ok("C12.c", "replay:%s" % lib.tail(n, 2), R.loc(b), "%s re-appends the popped element in a full turn of the queue (C02.c rotation form)" % sn)
         else:
             ctx.fail("C12.c", "replay:unclassified-callee:%s" % lib.tail(n, 2), R.loc(b), "%s on the detached queue is not classified" % sn)
     # the postponing site uses the queue's push
@@ -222,6 +226,14 @@ def check(ctx):
               and lib.tail(mir.fn_name(fr), 2) not in (NM["queue_push"], NM["queue_pop"], NM["queue_attach"], NM["queue_detach"])]
     ctx.check(len(pushes) >= 1 and not others, "C12.c", "runner:postpones-with-push-back", "%s:%d" % (R.file, R.line),
               "runner uses only push/pop_front/append/remove on the queue", "runner uses another queue operation: %s" % [R.loc(b) for b in others])
+
+
+def _rotation_replay(ctx):
+    """C02.c recognised (and discharged) the rotation form of the replay on this tree"""
+    import core, c02
+    sub = core.sub_obligations(ctx, c02)
+    rot = [o for o in sub.obligations if o["rule"] == "C02.c" and "::replay:" in o["key"]]
+    return bool(rot) and all(o["ok"] for o in rot) and any("popped from the front" in (o.get("detail") or "") for o in rot)
 
 
 def _dispatch_order(ctx):
